@@ -10,8 +10,9 @@
 //!          the class bytes (corpus file as is, or facts assembled under the named encoding) are read by cfkit and by
 //!          duke; got carries RAW material only:
 //!          {"ok":b,"err":msg,"panic":b,"version":[major,minor],"obs":[observations on the reference facts],
-//!           "ref_hash":h,"duke_hash":h,"diffs":[[gpath,kind,ref,got]..]   (cfkit::duke_diff::diff, scalar values only),
-//!           "methods":[{"m":i,"raw":RAW,"duke":POS}..]}                   one entry per method with code
+//!           "ref_hash":h,"duke_hash":h,"diffs":[[gpath,kind,"int"|"",ref,got]..]   (cfkit::duke_diff::diff; values only where both are 32-bit numbers),
+//!           "methods":[{"m":i,"raw":RAW,"duke":POS}..],                   one entry per method with code
+//!           "cover":{"ops":[mnemonics used],"attrs":["level:name"..]}}     coverage accounting only
 //!          RAW  = {"len":code_length,"offs":[..],"br":[[insn,[relative branch offsets..]]..],"exc":[[start_pc,end_pc,handler_pc]..],
 //!                  "init":[vt..],"attrs":[[name,[rows..]]..]}  rows as in the file:
 //!                  LineNumberTable [start_pc,line]; LocalVariable(Type)Table [start_pc,length,slot,name,desc|sig];
@@ -430,13 +431,34 @@ fn observe(v: &Value, obs: &mut Vec<String>) {
 	}
 }
 
-fn scalar(v: &Option<Value>) -> Value {
+/// A value the specification may calculate with: a number that fits 32 bits.
+fn small_int(v: &Option<Value>) -> Option<i64> {
 	match v {
-		Some(Value::Number(n)) => match n.as_i64() { Some(i) if i.abs() < (1 << 31) => json!(i), _ => json!(n.to_string()) },
-		Some(Value::String(s)) if s.len() <= 80 => json!(s),
-		Some(Value::Bool(b)) => json!(b.to_string()),
-		_ => json!(""),
+		Some(Value::Number(n)) => n.as_i64().filter(|i| i.abs() < (1 << 31)),
+		_ => None,
 	}
+}
+
+/// Coverage accounting only: the opcodes and attribute names (with their level) a class uses.
+fn cover(facts: &Value) -> Value {
+	fn attrs(level: &str, a: Option<&Value>, out: &mut std::collections::BTreeSet<String>) {
+		if let Some(Value::Object(m)) = a { for k in m.keys() { out.insert(format!("{level}:{k}")); } }
+	}
+	let mut ops = std::collections::BTreeSet::new();
+	let mut at = std::collections::BTreeSet::new();
+	attrs("class", facts.get("attrs"), &mut at);
+	for c in facts["attrs"].get("Record").and_then(Value::as_array).map(|a| a.as_slice()).unwrap_or(&[]) { attrs("record", c.get("attrs"), &mut at); }
+	for f in facts["fields"].as_array().map(|a| a.as_slice()).unwrap_or(&[]) { attrs("field", f.get("attrs"), &mut at); }
+	for m in facts["methods"].as_array().map(|a| a.as_slice()).unwrap_or(&[]) {
+		attrs("method", m.get("attrs"), &mut at);
+		if let Some(c) = m["attrs"].get("Code") {
+			attrs("code", c.get("attrs"), &mut at);
+			for i in c["insns"].as_array().map(|a| a.as_slice()).unwrap_or(&[]) {
+				if let Some(o) = i["op"].as_str() { if !ops.contains(o) { ops.insert(o.to_string()); } }
+			}
+		}
+	}
+	json!({"ops": ops, "attrs": at})
 }
 
 fn hash(v: &Value) -> String {
@@ -471,7 +493,10 @@ fn exec_class(v: &Value) -> Result<Value> {
 	let mut diffs: Vec<Value> = Vec::new();
 	if ok_tree {
 		for d in duke_diff::diff(reference, &duke_facts, READ_KINDS) {
-			let e = json!([d.gpath, d.kind, scalar(&d.expected), scalar(&d.got)]);
+			let e = match (small_int(&d.expected), small_int(&d.got)) {
+				(Some(a), Some(b)) => json!([d.gpath, d.kind, "int", a, b]),
+				_ => json!([d.gpath, d.kind, "", 0, 0]),
+			};
 			if !diffs.contains(&e) { diffs.push(e); }
 		}
 	}
@@ -492,7 +517,7 @@ fn exec_class(v: &Value) -> Result<Value> {
 		"ok": ok, "err": err, "panic": panic, "version": reference["version"], "obs": obs,
 		"ref_hash": hash(reference), "duke_hash": if ok { hash(&duke_facts) } else { String::new() },
 		"proj_error": proj_error,
-		"diffs": diffs, "methods": methods,
+		"diffs": diffs, "methods": methods, "cover": cover(reference),
 	}))
 }
 
